@@ -21,6 +21,9 @@ Oracles
     equals greedy lead+trail pairing looked up in the table as read independently from the
     .ucp file; runs whose stream has a lead+trail-class pair that the table does not define, or
     an undefined single byte, are not judged by this oracle;
+  * InputStreamWrapper.read(n): violations are classed by what the text contains (a decomposed
+    sequence, a multi-code-point cluster of the table, an e-ASCII pair) and every such text is
+    also read with its combining code points removed, where no such excuse exists (class `other`);
   * OutputStreamWrapper never flushes, so what it has written is only required to be a prefix
     of the flushed at-once conversion;
   * finite table audit, once per (codepage, box) per process and replayed into every run that
@@ -63,7 +66,7 @@ CONTROL = [7, 9, 10, 11, 12, 13, 28, 29, 30, 31]
 
 
 def quick_runs(prop):
-    return 6000
+    return 50000
 
 
 ###############################################################################
@@ -469,7 +472,16 @@ def _body(run):
             return 'e-ascii'
         return None
 
-    for label, text in (('repertoire-text', u''.join(plain)),) + ((('with-extra-text', u''.join(mixed)),) if has_extra else ()):
+    texts = [('repertoire-text', u''.join(plain))] + ([('with-extra-text', u''.join(mixed))] if has_extra else [])
+    for label, text in list(texts):
+        if is_cut_sensitive(text):
+            # the same text without the code points that combine with a neighbour: on it, any
+            # dependence on read boundaries has no such excuse
+            plain_text = u''.join(ch for ch in unicodedata.normalize('NFC', text)
+                                  if not unicodedata.combining(ch) and ch != u'\0')
+            if not is_cut_sensitive(plain_text):
+                texts.append((label + '-without-combining', plain_text))
+    for label, text in texts:
         all_once = InputStreamWrapper(io.StringIO(text), cp).read()
         direct = cp.unicode_to_bytes(text, errors='replace')
         got = read_in(text, sizes)
